@@ -50,6 +50,7 @@ def table_run(case, res: Result):
 def service_cases(tier, inst):
     usets = P.utility_sets(inst, 4, "large")
     n = 2 if tier == "quick" else 3
+    yield from _crowd_cases(inst)
     for ms in P.stream_multisets(inst, 4, n, cps=(1, 2), dts=(1,), iso=True):
         kinds = {A.kind_of(s) for s in ms}
         for ui in range(len(usets)):
@@ -59,6 +60,13 @@ def service_cases(tier, inst):
             for ui in (3, 5):
                 yield {"streams": ms, "zones": ["A", "B"], "uset": ui, "inst": list(inst)}
                 yield {"streams": ms, "zones": ["A", "A"], "uset": ui, "inst": list(inst), "options": {"DO_DIRECT_OPERATION_TARGETING": True}}
+
+
+def _crowd_cases(inst):
+    usets = P.utility_sets(inst, 4, "large")
+    for ms in P.crowds(inst, 4, dts=(1,)):
+        for ui in range(len(usets)):
+            yield {"streams": ms, "uset": ui, "inst": list(inst)}
 
 
 def service_run(case, res: Result):
@@ -143,7 +151,7 @@ SUBCHECKS = {
         describe="pinch_analysis_service: H_net_ut between 0 and H_net_actual on every row of the DI table; duties feasible and sequentially maximal vs the exact cascade",
         rule="case = stream multiset x 7 utility sets; non-trivial as above",
         cases=service_cases, run=service_run,
-        bound=lambda t: ("multisets <=2 (K=4, dt=d/2) x 12 utility sets" if t == "quick" else "multisets <=3 (K=4, dt=d/2) x 12 utility sets")
+        bound=lambda t: ("multisets <=2 (K=4, dt=d/2) x 14 utility sets + 7 problems of 10-40 streams" if t == "quick" else "multisets <=3 (K=4, dt=d/2) x 14 utility sets + 7 problems of 10-40 streams")
         + " + pairs in two zones and with unit-operation targeting on (every zone's and operation's target)",
     ),
 }
